@@ -325,3 +325,43 @@ Proof.
   - intros (En & Tr & Fe & Fd & W & Sc). split; [exact En|]. split; [exact Tr|]. split; [|repeat split; assumption].
     pose proof (wait_envelope_l sc script k st V En Dr H) as E. cbv zeta in E. tauto.
 Qed.
+
+(* ---- several requests through one retry sender --------------------------------------------------------- *)
+Lemma sends_independent_l c timeout T rs i r :
+  nth_error rs i = Some r ->
+  nth_error (sender_runs c timeout T rs) i = Some (run (request_scenario c timeout T r) (rq_script r)).
+Proof.
+  intros H. unfold sender_runs.
+  exact (map_nth_error (fun r => run (request_scenario c timeout T r) (rq_script r)) i rs H).
+Qed.
+
+Lemma no_attempt_after_stop_any_request_l c timeout t rs i r :
+  nth_error rs i = Some r ->
+  forall k st', nth_error (steps_of (request_scenario c timeout (Some t) r) (rq_script r)) (S k) = Some st' ->
+  rq_start r + s_start st' < t.
+Proof.
+  intros _ k st' H.
+  pose proof (no_attempt_after_stop_l (request_scenario c timeout (Some t) r) (rq_script r) (t - rq_start r) eq_refl k st' H).
+  lia.
+Qed.
+
+Lemma every_waiting_request_gets_shutdown_l c timeout t rs i r k st :
+  nth_error rs i = Some r ->
+  let sc := request_scenario c timeout (Some t) r in
+  nth_error (steps_of sc (rq_script r)) k = Some st -> reaches_wait sc st ->
+  rq_start r + s_end st <= rq_start r + s_end st + s_delay st ->
+  t <= rq_start r + s_end st + s_delay st ->
+  (forall cd, ctx_done sc = Some cd -> Z.max (s_end st) (t - rq_start r) < Z.max (s_end st) cd) ->
+  verdict_of sc (rq_script r) = VShutdown /\ length (steps_of sc (rq_script r)) = S k /\
+  final_is_shutdown sc (rq_script r) = true.
+Proof.
+  intros _ sc H RW D0 Le Hc. apply (stop_in_wait_l sc (rq_script r) k st (t - rq_start r) H RW eq_refl); [lia|exact Hc].
+Qed.
+
+Lemma fresh_backoff_every_request_l c timeout T rs i r k st :
+  nth_error rs i = Some r ->
+  nth_error (steps_of (request_scenario c timeout T r) (rq_script r)) k = Some st ->
+  s_cur st = cur_seq c k /\ (k = 0%nat -> s_start st = 0).
+Proof.
+  intros _ H. split; [exact (cur_is_seq_l _ _ _ _ H)|]. intros ->. exact (proj2 (first_payload_l _ _ _ H)).
+Qed.
